@@ -5,9 +5,11 @@ package c45
 
 import (
 	"fmt"
+	"strings"
 
 	"github.com/ontio/ontology/account"
 	"github.com/ontio/ontology/common"
+	"github.com/ontio/ontology/smartcontract/service/native/utils"
 )
 
 type view struct {
@@ -194,6 +196,22 @@ func (r *runner) oracle(h *History, n int, o *Op, e encoded, pre, post []*dRec, 
 	if q.Flag == 2 && (len(q.Keys) != 0 || q.Ctrl != nil || q.RecVer != -1 || len(q.Attrs) != 0) {
 		r.c.Fail("revoked-id-keeps-data", "revocation removes keys, controller, recovery and attributes", in(), w.coqRec(q), "empty record")
 	}
+	if strings.HasPrefix(o.M, "removeKey") && q.Flag == 1 {
+		// the key named by bytes or by index is revoked afterwards
+		idx := -1
+		if o.Key != nil && o.Key.K == "key" {
+			for i, k := range q.Keys {
+				if k.Tok == o.Key.N%len(w.keys) {
+					idx = i
+				}
+			}
+		} else if o.Key == nil {
+			idx = int(uint32(o.KIdx)) - 1
+		}
+		if idx < 0 || idx >= len(q.Keys) || !q.Keys[idx].Revoked {
+			r.c.Fail("key-revocation-not-recorded:"+o.M, "an accepted key removal leaves that key revoked", in(), w.coqRec(q), "key revoked")
+		}
+	}
 	if q.Flag == 1 && p.Flag == 1 {
 		if len(q.Keys) < len(p.Keys) {
 			r.c.Fail("key-list-shrunk:"+o.M, "key indices are stable", in(), len(q.Keys), len(p.Keys))
@@ -203,6 +221,77 @@ func (r *runner) oracle(h *History, n int, o *Op, e encoded, pre, post []*dRec, 
 					r.c.Fail("key-unrevoked:"+o.M, "a revoked key stays revoked at its index", in(), w.coqRec(q), w.coqRec(p))
 				}
 			}
+		}
+	}
+}
+
+// queries cross-checks the contract's own read-only methods against the raw records at the end of
+// a history: getKeyState reports every stored key as "in use" / "revoked" exactly as stored, and
+// verifySignature (the identity proof other contracts rely on; no authentication right needed)
+// succeeds for a stored key exactly when the identity is registered, the key is not revoked and
+// its address signed the transaction.
+func (r *runner) queries(h *History) {
+	w := r.w
+	fin := w.dumpAll()
+	in := func(id, idx int, m string) interface{} {
+		return map[string]interface{}{"history": h, "query": m, "id": id, "index": idx}
+	}
+	for id := 0; id < 5; id++ {
+		d := fin[id]
+		for i, k := range d.Keys {
+			if k.Tok < 0 {
+				continue
+			}
+			sink := common.NewZeroCopySink(nil)
+			sink.WriteVarBytes(w.ids[id])
+			utils.EncodeVarUint(sink, uint64(i+1))
+			ret, _, _ := w.query(nil, "getKeyState", sink.Bytes())
+			want := "in use"
+			if k.Revoked {
+				want = "revoked"
+			}
+			if d.Flag == 1 && string(ret) != want {
+				r.c.Fail("query-mismatch:getKeyState", "getKeyState reports the stored state of a key", in(id, i+1, "getKeyState"), string(ret), want)
+			}
+			addr := []common.Address{w.addrs[w.keys[k.Tok].addr]}
+			_, ok, _ := w.query(addr, "verifySignature", sink.Bytes())
+			if ok != (d.Flag == 1 && !k.Revoked) {
+				r.c.Fail("query:verifySignature", "verifySignature succeeds exactly for a live key of a registered identity whose address signed", in(id, i+1, "verifySignature"), ok, d.Flag == 1 && !k.Revoked)
+			}
+			if _, ok, _ := w.query(nil, "verifySignature", sink.Bytes()); ok {
+				r.c.Fail("query:verifySignature-unsigned", "verifySignature fails when nobody signed", in(id, i+1, "verifySignature"), true, false)
+			}
+			r.c.Count("query:getKeyState+verifySignature")
+		}
+	}
+}
+
+// sideOracle judges a service / context call: accepted only on a registered identity and only
+// when a live authentication key of it witnessed; whatever happens, nothing the model keeps
+// (flag, keys, controller, recovery, attributes) changes, for any identity.
+func (r *runner) sideOracle(h *History, n int, o *Op, e encoded, pre, post []*dRec, ok bool, pmsg string) {
+	w := r.w
+	id := o.ID % nPoolIDs
+	v := &view{w: w, pre: pre, sg: map[int]bool{}}
+	for _, t := range o.Sig {
+		v.sg[t%w.nAddrs] = true
+	}
+	in := func() interface{} {
+		hh := History{Tag: h.Tag, Ops: h.Ops[:n+1]}
+		return map[string]interface{}{"history": hh, "failing_step": n, "method": o.M, "args_hex": fmt.Sprintf("%x", e.args)}
+	}
+	if pmsg != "" {
+		r.c.Count("panic:" + o.M)
+		r.c.Fail("panic:"+o.M, "a native call returns (TRUE or an error); it never panics", in(), pmsg, "an error")
+	}
+	if ok && pre[id].Flag == 2 {
+		r.c.Fail("revoked-id-modified:"+o.M, "a revoked identity can never be registered or modified again", in(), "accepted", "refused")
+	} else if ok && !(pre[id].Flag == 1 && v.own(id)) {
+		r.c.Fail("unauthorized:"+o.M, "accepted only when witnessed by live authentication key of the identity", in(), "accepted", "refused")
+	}
+	for i := range pre {
+		if !recEq(pre[i], post[i]) {
+			r.c.Fail("foreign-change:"+o.M, "a service / context call changes no flag, key, controller, recovery or attribute", in(), fmt.Sprintf("identity %d changed", i), "unchanged")
 		}
 	}
 }
